@@ -656,7 +656,7 @@ theorem handleDo_node (pre : Predef) (env : Env V) (n : Node J V) (spec : Spec) 
       · rfl
       · exact (finishDo_calls ..).2.1
 
-theorem readFailed_node (pre : Predef) (n : Node J V) (mod : Module J V) (p : Param J V) (e : Err)
+theorem readFailed_node (pre : Predef) (n : Node J V) (mod : Module J V) (p : Param J V) (e : Node.Err)
     (calls : List (DriverCall V)) : NodeStep n (readFailed pre n mod p e calls).node := by
   unfold readFailed; split
   · exact Or.inl rfl
@@ -688,13 +688,25 @@ theorem handleRead_node (pre : Predef) (env : Env V) (n : Node J V) (spec : Spec
       · exact Or.inl rfl
       · exact readParam_node ..
 
-theorem step_node (pre : Predef) (env : Env V) (n : Node J V) (r : Request J) : NodeStep n (step pre env n r).node := by
+theorem handleAssign_node (pre : Predef) (n : Node J V) (m attr : String) (raw : Option V) :
+    NodeStep n (handleAssign pre n m attr raw).node := by
+  unfold handleAssign
+  split
+  · exact Or.inl rfl
+  · split
+    · split
+      · exact readFailed_node ..
+      · exact store_node ..
+    · exact Or.inl rfl
+
+theorem step_node (pre : Predef) (env : Env V) (n : Node J V) (r : Request J V) : NodeStep n (step pre env n r).node := by
   cases r with
   | change spec j => exact handleChange_node ..
   | do_ spec data => exact Or.inl (handleDo_node ..)
   | read spec hd => exact handleRead_node ..
+  | assign m attr raw => exact handleAssign_node ..
 
-theorem wf_step (pre : Predef) (env : Env V) (n : Node J V) (hwf : Node.WF pre n) (r : Request J) :
+theorem wf_step (pre : Predef) (env : Env V) (n : Node J V) (hwf : Node.WF pre n) (r : Request J V) :
     Node.WF pre (step pre env n r).node := by
   rcases step_node pre env n r with h | ⟨mod, attr, e, h⟩
   · rw [h]; exact hwf
